@@ -212,6 +212,10 @@ theorem inbound_buf (res : ResolveOut) (s : St) : (inbound res s).2 = s.buf := b
 theorem inbound_not_forward (res : ResolveOut) (s : St) : (inbound res s).1.isForward = false := by
   unfold inbound; cases res <;> rfl
 
+theorem inbound_accepting_deliver (res : ResolveOut) (s : St)
+    (h : (inbound res s).1.accepting = true) : (inbound res s).1.isDeliver = true := by
+  cases res <;> simp_all [inbound, Disp.accepting, Disp.isDeliver]
+
 /-! ### stXover -/
 
 theorem stXover_err {cfg mac h now s r} (e : stXover cfg mac h now s = .error r) :
